@@ -96,7 +96,7 @@ def analyse_generated(text, regions, unit_props):
                 ps += [x.strip() for x in m.group(1).split(',')]
         return ps
 
-    def walk(its, owner):
+    def walk(its, owner, ext=False):
         for it in its:
             if it.kind == 'fn':
                 fi = FnInfo()
@@ -110,7 +110,7 @@ def analyse_generated(text, regions, unit_props):
                 elif 'proof' in it.mods:
                     fi.mode = 'proof'
                 attrs = ' '.join(it.attrs)
-                fi.external = 'verifier::external' in attrs
+                fi.external = ext or 'verifier::external' in attrs
                 for r in regions:
                     if r.kind == 'fn' and r.gen_start <= fi.start and fi.end <= r.gen_end:
                         fi.region = r
@@ -204,7 +204,7 @@ def analyse_generated(text, regions, unit_props):
                     own = (owner + '::' if owner else '') + it.name
                 elif it.kind == 'trait':
                     own = it.name
-                walk(it.children, own)
+                walk(it.children, own, ext or 'verifier::external' in ' '.join(it.attrs))
 
     walk(items, '')
     return fns
